@@ -1449,4 +1449,54 @@ example : hRange ([3, 1, 5, 0, 99, 7] : List Rat) = (0, 99) := by decide +kernel
 
 end range
 
+/-! ## polym_lcp_solver: starting_player_actions -/
+
+/-- **The start is accepted iff it is well formed** (iff-characterisation of the `assert`): an
+    explicit list is accepted exactly when it has one entry per player and every entry is a valid
+    action index — which is precisely the hypothesis `hstart` of the Howson theorems above, plus
+    the length; and then it is used unchanged. -/
+theorem polymStart_some_iff (nums st : List Nat) :
+    polymStart nums (some st) = some st ↔
+      (st.length = nums.length ∧ ∀ q, q < nums.length → st.getD q 0 < nums.getD q 0) := by
+  unfold polymStart
+  constructor
+  · intro h
+    by_cases hc : st.length = nums.length ∧
+        (List.range nums.length).all (fun q => decide (st.getD q 0 < nums.getD q 0)) = true
+    · refine ⟨hc.1, fun q hq => ?_⟩
+      have := List.all_eq_true.mp hc.2 q (List.mem_range.mpr hq)
+      exact of_decide_eq_true this
+    · simp only [hc, if_false] at h
+      exact absurd h (by simp)
+  · intro h
+    have : (List.range nums.length).all (fun q => decide (st.getD q 0 < nums.getD q 0)) = true := by
+      rw [List.all_eq_true]
+      intro q hq
+      exact decide_eq_true (h.2 q (List.mem_range.mp hq))
+    simp only [h.1, this, and_self, if_true]
+
+/-- a rejected start raises, it is never silently replaced: the result is `none` or the list given -/
+theorem polymStart_none_or_same (nums st : List Nat) :
+    polymStart nums (some st) = none ∨ polymStart nums (some st) = some st := by
+  unfold polymStart
+  simp only
+  split_ifs
+  · right; rfl
+  · left; rfl
+
+/-- the default (`None`) start is every player's first action, and it is well formed whenever every
+    player has at least one action -/
+theorem polymStart_default (nums : List Nat) (hpos : ∀ k ∈ nums, 0 < k) :
+    polymStart nums none = some (List.replicate nums.length 0) ∧
+    polymStart nums (some (List.replicate nums.length 0)) = some (List.replicate nums.length 0) := by
+  refine ⟨rfl, (polymStart_some_iff nums _).mpr ⟨by simp, ?_⟩⟩
+  intro q hq
+  have h0 : (List.replicate nums.length 0).getD q 0 = 0 := by
+    simp [List.getD_eq_getElem?_getD]
+  rw [h0, List.getD_eq_getElem?_getD, List.getElem?_eq_getElem hq, Option.getD_some]
+  exact hpos _ (List.getElem_mem hq)
+
+example : polymStart [2, 3, 2] (some [1, 2, 0]) = some [1, 2, 0] ∧ polymStart [2, 3, 2] (some [1, 3, 0]) = none ∧
+    polymStart [2, 3, 2] (some [1, 2]) = none ∧ polymStart [2, 3, 2] none = some [0, 0, 0] := by decide
+
 end QE.C15
